@@ -98,6 +98,16 @@ theorem C06_adjust_decision_logged (cfg : Cfg) (ops : List Op) (hwf : wf cfg ops
   obtain ⟨_, h, _⟩ := run_RInv cfg ops _ _ (RInv.init cfg) (wf_proto hwf)
   exact h.full.log
 
+/-- **Load-tracking: `_total` is the number of outstanding requests.**  After every operation of every
+    run the aperture's `_total` equals the number of dispatches that have not completed (entries of
+    the dispatch table whose `put_called` flag is still false): `_OnGet` counts every dispatch once,
+    `_OnPut` every first completion once — also when the node has meanwhile left the heap (member
+    left, contraction, jitter).  The plain heap balancer keeps no total.  Needs no hypothesis. -/
+theorem C06_total_is_sum (cfg : Cfg) (ops : List Op) :
+    (runSt cfg (init cfg) ops).sub.total =
+      if cfg.aperture then (((flagsOf (runSt cfg (init cfg) ops).sub.hs).count false : Nat) : Int) else 0 :=
+  run_TInv cfg ops _ (TInv.init cfg)
+
 /-- **EMA.**  With a decay weight in [0,1] each update lies between the previous value and the sample. -/
 theorem C06_ema_between (w prev sample : Rat) (h0 : 0 ≤ w) (h1 : w ≤ 1) :
     min prev sample ≤ Ema.update (some prev) w sample ∧ Ema.update (some prev) w sample ≤ max prev sample :=
@@ -153,7 +163,7 @@ theorem C06_min_size_zero_counterexample :
     harness evaluates on the implementation's observations (component `aperture`). -/
 theorem C06_model_satisfies_spec (cfg : Cfg) (ops : List Op) (hwf : wf cfg ops = true) :
     specC06 cfg (comp6.modelTrace cfg ops) = .ok :=
-  specC06_trace cfg ops _ _ 0 (RInv.init cfg) (wf_proto hwf)
+  specC06_trace cfg ops _ _ 0 (RInv.init cfg) (TInv.init cfg) (wf_proto hwf)
 
 /-! non-vacuity: concrete instances of the hypotheses -/
 
